@@ -63,9 +63,11 @@ def gen_var(rng, name, dt, node_in_force, feat=None):
         if dt in enc.INT:
             lo, hi = enc.int_range(dt)
             if kind in ("rel0", "rel1") and node_in_force >= 0:
-                x = rng.choice([0x180, 0x200, 0x600, 0, 5])
+                # offsets whose hex spelling ends in / consists of letters that also occur in "$NODEID"
+                x = rng.choice([0x180, 0x200, 0x600, 0, 5, 0x21D, 0x4E, 0xDE, 0xED, 0xD, 0xE, 0x1DE, 0xDD, 0x10D,
+                                rng.randrange(0, 0x800), rng.randrange(0, 0x800)])
                 if x + node_in_force <= hi:
-                    return {"k": "rel", "x": x, "form": 0 if kind == "rel0" else 1}
+                    return {"k": "rel", "x": x, "form": 0 if kind == "rel0" else 1, "numsp": rng.choice([0, 0, 1, 2])}
             val = rng.choice([lo, hi, 0, 1, rng.randint(lo, hi)])
             if kind == "hex" and val < 0:
                 val = -val - 1 if -val - 1 <= hi else 0
@@ -194,7 +196,9 @@ def render_tok(tok, dt):
     if k == "num2c":
         return f"0x{int.from_bytes(bytes(tok['v']['mag']), 'little'):X}"
     if k == "rel":
-        return f"$NODEID+0x{tok['x']:X}" if tok["form"] == 0 else f"0x{tok['x']:X}+$NODEID"
+        x = tok["x"]
+        num = {0: f"0x{x:X}", 1: f"0x{x:x}", 2: str(x)}[tok.get("numsp", 0)]
+        return f"$NODEID+{num}" if tok["form"] == 0 else f"{num}+$NODEID"
     if k == "text":
         return "".join(chr(c) for c in tok["cps"])
     if k == "hex":
@@ -371,7 +375,7 @@ def import_rows(doc, proj):
 
 def _strip_f(x):
     if isinstance(x, dict):
-        return {k: _strip_f(v) for k, v in x.items() if k not in ("f", "spell", "idxcase")}
+        return {k: _strip_f(v) for k, v in x.items() if k not in ("f", "spell", "idxcase", "numsp")}
     if isinstance(x, list):
         return [_strip_f(v) for v in x]
     return x
